@@ -26,6 +26,9 @@ pub enum Kind5 {
     LockRandom(u64),
     SecretNonCanonical(u8),
     LockNonCanonical(u8),
+    /// secret written as s + q (same scalar, non-canonical bytes) and *everything else made consistent
+    /// with those raw bytes*: index = first one whose digest of the raw bytes is canonical, lock = that digest
+    SecretPlusModulusConsistent,
     Random(Vec<u8>),
     Truncated(u8),
 }
@@ -48,6 +51,7 @@ fn strategy(_t: Tier) -> impl Strategy<Value = Case> {
         1 => any::<u64>().prop_map(Kind5::LockRandom),
         1 => any::<u8>().prop_map(Kind5::SecretNonCanonical),
         1 => any::<u8>().prop_map(Kind5::LockNonCanonical),
+        2 => Just(Kind5::SecretPlusModulusConsistent),
         2 => proptest::collection::vec(any::<u8>(), 65).prop_map(Kind5::Random),
         1 => (0u8..65).prop_map(Kind5::Truncated),
     ];
@@ -144,6 +148,24 @@ fn oracle(c: &Case, rec: &Rec) -> R {
         Kind5::LockNonCanonical(a) => {
             bytes[..32].copy_from_slice(&non_canonical(*a));
             "lock-non-canonical"
+        }
+        Kind5::SecretPlusModulusConsistent => {
+            let mut raw = [0u8; 32];
+            let mut carry = 0u16;
+            for i in 0..32 {
+                let v = secret[i] as u16 + Q_LE[i] as u16 + carry;
+                raw[i] = v as u8;
+                carry = v >> 8;
+            }
+            match (carry, (0u8..=255).find(|i| wire::sc(&digest(&raw, *i)).is_some())) {
+                (0, Some(i)) => {
+                    bytes[32..64].copy_from_slice(&raw);
+                    bytes[64] = i;
+                    bytes[..32].copy_from_slice(&digest(&raw, i));
+                    "secret-plus-modulus/lock-and-index-consistent-with-raw-bytes"
+                }
+                _ => "valid",
+            }
         }
         Kind5::Random(v) => {
             bytes = v.clone();
@@ -304,8 +326,8 @@ pub fn checks() -> Vec<CheckDef> {
         ),
         prop_check(
             "pair-decoding",
-            "generated 65-byte strings lock||secret||index derived from honestly generated pairs: valid; lock / secret / index altered; (secret,index) whose SHA3 digest is not a canonical scalar with lock = digest and lock = digest mod q; lock of another index; random lock; non-canonical secret or lock; random bytes; truncations. Oracle: decode is Ok <=> both scalars canonical and SHA3-256(secret||index) is a canonical scalar encoding equal to the lock (independent reference); every generated or decoded pair satisfies SHA3(revocation_secret().as_bytes()) == revocation_lock().as_bytes() and re-encodes identically; non-trivial = any altered case; distinct by (kind, seed)",
-            &["digest-non-canonical/lock=digest/reject", "digest-non-canonical/lock=digest-mod-q/reject", "lock-altered/reject", "valid/accept"],
+            "generated 65-byte strings lock||secret||index derived from honestly generated pairs: valid; lock / secret / index altered; (secret,index) whose SHA3 digest is not a canonical scalar with lock = digest and lock = digest mod q; lock of another index; random lock; non-canonical secret or lock; the secret written as s+q with index and lock recomputed over those raw bytes; random bytes; truncations. Oracle: decode is Ok <=> both scalars canonical and SHA3-256(secret||index) is a canonical scalar encoding equal to the lock (independent reference); every generated or decoded pair satisfies SHA3(revocation_secret().as_bytes()) == revocation_lock().as_bytes() and re-encodes identically; non-trivial = any altered case; distinct by (kind, seed)",
+            &["digest-non-canonical/lock=digest/reject", "digest-non-canonical/lock=digest-mod-q/reject", "lock-altered/reject", "valid/accept", "secret-plus-modulus/lock-and-index-consistent-with-raw-bytes/reject"],
             (40_000, 10_000_000),
             strategy,
             oracle,
